@@ -38,6 +38,7 @@ func runC06(p *Program, r *Report) {
 	checkRollbackPerAddition(p, r, "R06e")
 	checkMadeProofIsFilled(p, r, "R06f", entries)
 	checkEmptyRootRestored(p, r, "R06h")
+	checkEmptyRootByGeometry(p, r, "R06i")
 }
 
 // returnsUpdatedParam: result ri of fn has the slice type of parameter pi and
@@ -1002,4 +1003,71 @@ func checkEmptyRootRestored(p *Program, r *Report, rule string) {
 	default:
 		r.Violate(rule, key, p.Pos(undo.Pos()), "a re-created empty root is left without a node: "+aWhy+"; and "+bWhy+" - the forest answers queries as before (a missing node reads as the empty hash) and then refuses the next addition that reaches that row", "in (*MapPollard).Undo")
 	}
+}
+
+// ---------------------------------------------------------------------------
+// R06i EMPTY-ROOT-PLACED-BY-GEOMETRY. When the map forest undoes a deletion
+// it has to move the subtree that climbed over the deleted position back
+// down (placeEmptyRoot). Whether there is such a subtree is a question about
+// the forest's geometry - does the sibling position exist for this leaf count
+// - and is answered with the reviewed existence test. A partial forest prunes
+// what no remembered leaf needs, so "is a node stored at the parent" says
+// nothing about it: remembered leaves deeper down would stay at their
+// moved-up positions. In the deletion-undo every call of the step is under a
+// true edge of the existence test on (a function of) the same position and
+// is not control-dependent on a look-up of the node store.
+
+func checkEmptyRootByGeometry(p *Program, r *Report, rule string) {
+	r.Rule(rule, "EMPTY-ROOT-PLACED-BY-GEOMETRY: in the deletion-undo of the map forest the step that moves a climbed subtree back down runs under the reviewed existence test of the sibling position, never under the result of a node-store look-up (a partial forest prunes nodes whose subtrees still hold remembered leaves)")
+	place := p.Func("(*MapPollard).placeEmptyRoot")
+	undo := p.Func("(*MapPollard).Undo")
+	if place == nil || undo == nil {
+		r.MissingAnchor(rule, "(*MapPollard).placeEmptyRoot / (*MapPollard).Undo", "undo entry or the empty-root step not found")
+		return
+	}
+	reach := p.StaticReach(undo)
+	n := 0
+	for _, g := range sortedFuncs(p, reach) {
+		if g == place || strings.Contains(strings.ToLower(p.FuncName(g)), "add") {
+			continue // the addition-undo takes the positions from the list of overwritten roots (R06h)
+		}
+		idx := 0
+		for _, sc := range callsIn(p, g) {
+			if sc.call.Common().StaticCallee() != place {
+				continue
+			}
+			idx++
+			n++
+			key := fmt.Sprintf("%s->placeEmptyRoot#%d/by-geometry", p.FuncName(g), idx)
+			args := sc.call.Common().Args
+			pos := args[len(args)-1]
+			_, byTest := existenceGuardFor(p, sc.call.Block(), func(v ssa.Value) bool { return v == pos || sameValue(v, pos) })
+			byLookup := false
+			for _, gd := range guardsAt(sc.call.Block()) {
+				if dependsOn(gd.Cond, func(v ssa.Value) bool {
+					ex, ok := v.(*ssa.Extract)
+					if !ok {
+						return false
+					}
+					c, ok := ex.Tuple.(*ssa.Call)
+					if !ok {
+						return false
+					}
+					k, m, _ := storeCall(p, c)
+					return k == "nodes" && m == "Get"
+				}) {
+					byLookup = true
+				}
+			}
+			switch {
+			case byLookup:
+				r.Violate(rule, key, posOf(p, sc.call), "the step that moves a climbed subtree back down runs only when a node-store look-up found something: a partial forest has pruned that node while remembered leaves below it are still stored at their moved-up positions, and they stay there after the undo", "in "+p.FuncName(g))
+			case !byTest:
+				r.Violate(rule, key, posOf(p, sc.call), "the step that moves a climbed subtree back down is not under the reviewed existence test of the sibling position for the current leaf count", "in "+p.FuncName(g))
+			default:
+				r.Discharge(rule, key, posOf(p, sc.call), "the call is under the existence test of the sibling position and not under a node-store look-up", true)
+			}
+		}
+	}
+	r.Floor(rule, "calls of the empty-root step in the deletion-undo", n, 1)
 }
